@@ -2,15 +2,17 @@
 
 Explicit-state search over *histories of compilations* on the real process-wide compiler state.
 
-* Alphabet: the 27 designs of verif/gen/c11_designs.py (accepted ones and rejected ones, one per failure stage).
+* Alphabet: the 32 designs of verif/gen/c11_designs.py (accepted ones and rejected ones, one per failure stage).
 * Golden outcome of a letter = its compilation in a fresh interpreter (PYTHONHASHSEED=0) with an empty history.
 * History tree: every history up to a complete length is executed in one interpreter; the tree is explored
   depth-first with os.fork() as the state snapshot (verif/gen/c11_tree.py, a stand-alone script started in fresh
   interpreters; subtrees are distributed over pmap workers).  Mode "reuse": the same class object is compiled
   again; mode "fresh": each compilation imports a new copy of the module file.
-    quick   : all histories <=2 over all letters (reuse); <=3 over the 6-letter core (reuse); <=2 over the core (fresh)
-    thorough: all histories <=3 over all letters (reuse); <=4 over the 8-letter core (reuse); <=2 over all letters (fresh)
-* Corpus stratum: upstream reference designs X (cocotb stubbed): [X, X] for every 4th design (quick); for all
+    quick   : all histories [p] and [p, v] with p any letter, v in VICTIMS10 or v = p (reuse); all <=3 over the
+              6-letter core (reuse); all <=2 over the core (fresh)
+    thorough: all histories <=3 over all letters whose 3rd letter is an accepted design or repeats an earlier letter
+              (reuse); all <=4 over the 8-letter core (reuse); all <=2 over all letters (fresh)
+* Corpus stratum: upstream reference designs X (cocotb stubbed): [X, X] for every 8th design (quick); for all
   designs [X, X], [X, Y] for the 8 designs following X and [rejected letter, X] (thorough).
 * Oracle: after every history an accepted design yields the golden bytes; a rejected design is rejected
   again with the same exception class (the message may differ: weakest reading).  Deviations are reduced to
@@ -204,28 +206,36 @@ CORE6 = ["coro", "syncflag", "prefix", "rej_lowering", "rej_seqctx", "rej_prefix
 CORE8 = CORE6 + ["env3", "env5"]
 
 
-def tree_strata(run, order):
-    """(label, mode, alphabet, complete history length, task prefix length, count_min_len).
+VICTIMS10 = ["comb", "coro", "syncflag", "prefix", "glob3", "glob5", "env3", "env5", "dyn_a", "dyn_b"]
+
+
+def tree_strata(run, order, golden):
+    """(label, mode, alphabet, complete history length, task prefix length, count_min_len, leaf victims | None).
     Fork+compile costs ~1500 page faults per node and does not scale with the number of workers on the
     target VM (a few nodes/s under load, ~25/s idle), so the full alphabet is explored one level less deep
-    than a small core (one letter per mechanism that ever leaked)."""
+    than a small core, and the last letter of the longest histories over the full alphabet (the victim) ranges
+    over a subset plus the letters already in the history (re-compilation)."""
+    accepted = [l for l in order if golden[l]["ok"]]
     if run.thorough:
         core = [l for l in CORE8 if l in order]
-        strata = [("full", "reuse", order, 3, 2, 0), ("full", "fresh", order, 2, 1, 0), ("core", "reuse", core, 4, 2, 4)]
+        strata = [("full", "reuse", order, 3, 2, 0, accepted), ("full", "fresh", order, 2, 1, 0, None),
+                  ("core", "reuse", core, 4, 2, 4, None)]
     else:
         core = [l for l in CORE6 if l in order]
-        strata = [("full", "reuse", order, 2, 1, 0), ("core", "fresh", core, 2, 1, 0), ("core", "reuse", core, 3, 2, 3)]
+        vict = [l for l in VICTIMS10 if l in order]
+        strata = [("full", "reuse", order, 2, 1, 0, vict), ("core", "fresh", core, 2, 1, 0, None),
+                  ("core", "reuse", core, 3, 2, 3, None)]
     ov = os.environ.get("VERIF_C11_DEPTH")  # development aid only, e.g. "full=2,fresh=1,core=3"
     if ov:
         d = dict(part.split("=") for part in ov.split(","))
         out = []
-        for (label, mode, alpha, depth, plen, cmin) in strata:
+        for (label, mode, alpha, depth, plen, cmin, leaf) in strata:
             key = "fresh" if mode == "fresh" else label
             if key in d:
                 depth = int(d[key])
                 cmin = min(cmin, depth)
             if depth > 0:
-                out.append((label, mode, alpha, depth, min(plen, depth), cmin))
+                out.append((label, mode, alpha, depth, min(plen, depth), cmin, leaf))
         strata = out
         run.capped = True
         run.note(f"VERIF_C11_DEPTH set: {ov}")
@@ -234,10 +244,11 @@ def tree_strata(run, order):
 
 def tree_tasks(moddir, letters, golden, strata):
     gfile = write_golden(moddir, golden)
-    for (label, mode, alpha, depth, plen, cmin) in strata:
+    for (label, mode, alpha, depth, plen, cmin, leaf) in strata:
         for prefix in itertools.product(alpha, repeat=min(plen, depth)):
             spec = base_spec(moddir, letters, alpha)
-            spec.update(mode=mode, prefix=list(prefix), depth=depth, golden_file=gfile, count_min_len=cmin)
+            spec.update(mode=mode, prefix=list(prefix), depth=depth, golden_file=gfile, count_min_len=cmin,
+                        leaf_order=leaf)
             yield {"kind": "tree", "mode": mode, "prefix": list(prefix), "spec": spec, "hashseed": TREE_HASHSEED,
                    "size": len(alpha) ** (depth - len(prefix))}
 
@@ -268,18 +279,27 @@ def collect(run, tasks, devs, label):
 
 
 def check_tree(run, moddir, letters, order, golden, devs):
-    strata = tree_strata(run, order)
+    strata = tree_strata(run, order, golden)
     tasks = list(tree_tasks(moddir, letters, golden, strata))
     tasks.sort(key=lambda t: -t["size"])  # largest subtrees first (better load balance)
     got_nodes = collect(run, tasks, devs, "tree")
     run.count("states", len({(s[1]) for s in strata}))  # one root node (empty history) per mode
     run.coverage_extra["strata"] = [
-        {"alphabet": label, "mode": mode, "letters": len(alpha), "complete_history_length": depth}
-        for (label, mode, alpha, depth, plen, cmin) in strata]
+        {"alphabet": label, "mode": mode, "letters": len(alpha), "complete_history_length": depth,
+         "last_letter": ("any letter" if leaf is None else f"one of {leaf} or a letter of the history")
+         if True else None}
+        for (label, mode, alpha, depth, plen, cmin, leaf) in strata]
     run.coverage_extra["core_alphabet"] = [l for l in (CORE8 if run.thorough else CORE6) if l in order]
     run.coverage_extra["alphabet_size"] = len(order)
-    expected_nodes = sum(len(alpha) ** k for (_, _, alpha, depth, _, cmin) in strata
-                         for k in range(max(1, cmin), depth + 1))
+    expected_nodes = 0
+    for (_, _, alpha, depth, _, cmin, leaf) in strata:
+        for k in range(max(1, cmin), depth + 1):
+            if leaf is None or k < depth:
+                expected_nodes += len(alpha) ** k
+            else:
+                ls = set(leaf)
+                expected_nodes += sum(len([l for l in alpha if l in ls or l in h])
+                                      for h in itertools.product(alpha, repeat=depth - 1))
     if got_nodes != expected_nodes and not run.tool_errors:
         run.tool_error(f"history tree incomplete: {got_nodes} nodes executed, expected {expected_nodes}")
     run.coverage_extra["exhaustive"] = got_nodes == expected_nodes
@@ -307,8 +327,8 @@ def corpus_letters():
 def check_corpus(run, moddir, letters, order, golden, devs):
     cl = corpus_letters()
     if not run.thorough:
-        # quick: every 4th upstream design (fixed, seed independent); thorough: all of them
-        cl = dict(list(cl.items())[::4])
+        # quick: every 8th upstream design (fixed, seed independent); thorough: all of them
+        cl = dict(list(cl.items())[::8])
     lim = os.environ.get("VERIF_C11_CORPUS_LIMIT")
     if lim:  # development aid only
         cl = dict(list(cl.items())[:: max(1, len(cl) // int(lim))][: int(lim)])
@@ -322,7 +342,7 @@ def check_corpus(run, moddir, letters, order, golden, devs):
     acc = [c for c in corder if cgold[c]["ok"]]
     run.count("corpus_designs", len(corder))
     run.count("corpus_designs_accepted", len(acc))
-    if len(acc) < (1 if lim else (100 if run.thorough else 25)):
+    if len(acc) < (1 if lim else (100 if run.thorough else 12)):
         run.tool_error(f"vacuous corpus: only {len(acc)} of {len(corder)} upstream designs compile in a fresh interpreter")
         return
     allgold = dict(golden)
@@ -349,7 +369,7 @@ def check_corpus(run, moddir, letters, order, golden, devs):
     expected = len(rejected) * len(acc) + len(acc) * (1 + (9 if run.thorough else 1))
     if got != expected and not run.tool_errors:
         run.tool_error(f"corpus stratum incomplete: {got} nodes executed, expected {expected}")
-    run.coverage_extra["corpus_stratum"] = (("all upstream designs X: [rejected letter, X]; " if run.thorough else "every 4th upstream design X: ")
+    run.coverage_extra["corpus_stratum"] = (("all upstream designs X: [rejected letter, X]; " if run.thorough else "every 8th upstream design X: ")
                                             + ("[X, X] and [X, Y] for the 8 designs following X" if run.thorough else "[X, X]")
                                             + f"; rejected letters used: {rejected}")
 
